@@ -296,3 +296,12 @@ func Recover(f func() string) (out string) {
 	}()
 	return f()
 }
+
+// RepoRoot is the source tree the extractors read: /repo, or VERIF_REPO when a check is run against a scratch
+// worktree (tools/seedcheck_wt.sh); the harness itself is built against the same tree through go.mod's replace.
+func RepoRoot() string {
+	if r := os.Getenv("VERIF_REPO"); r != "" {
+		return r
+	}
+	return "/repo"
+}
